@@ -311,7 +311,8 @@ fn test_{test_name}() {{
                     Some(scope) => {
                         let mut name = doc.pretty(LINE_WIDTH).to_string();
                         let mut is_rename = is_rename;
-                        while !scope.insert(name.clone()) {
+                        // `r#x` and `x` are the same identifier
+                        while !scope.insert(name.strip_prefix("r#").unwrap_or(&name).to_string()) {
                             name.push('_');
                             is_rename = true;
                         }
